@@ -14,6 +14,8 @@ NOT_DECIDED = ("the functional equivalence itself: that the overlay of pending r
                "listings under renames, hard links, truncation and extension) equals a reference POSIX tree for every history; that applying "
                "a flushed record to the persisted image leaves the merged view unchanged. Those live in string / offset arithmetic and in the "
                "order-dependent meaning of the log; no structural rule here decides them (DESIGN.md section 6).")
+DECIDED += ("; R4 position bookkeeping: the cursor stored after a cursor read / write is the transfer's own offset plus its result, and no "
+            "record is logged for an empty write")
 DECIDED += "; R3 sibling replays of the pending log consider the same record kinds (file_len ~ read_file, dir_entries ~ dir_has_children)"
 ASSUMPTIONS = ["Rust's &T / &mut T discipline: a function taking &Fs cannot mutate the tree (Fs has no interior mutability: checked)"]
 
@@ -112,6 +114,135 @@ def r3(ctx):
     ctx.floor(R, 2)
 
 
+CURSOR = "turmoil_fs::shim::std::fs::File::cursor"
+POSITIONED = re.compile(r"^turmoil_fs::shim::std::fs::File::(read_at_internal|write_at_internal)$")
+
+
+def _guard_of(ctx, b, l, depth=0):
+    """the lock-guard local a reference local was derived from (`&cursor` / `&mut cursor` -> Deref::deref[_mut])"""
+    # (a store `*r = v` counts as a definition of r for single_def: look the producing call up directly)
+    ts = [t for bb, t in b.calls(re.compile(r"::deref(_mut)?$")) if t["d"]["l"] == l and not t["d"].get("p")]
+    if len(ts) == 1 and ts[0]["args"]:
+        d = origin(b, ts[0]["args"][0])
+        if d["k"] == "ref" and not d["p"].get("p"):
+            return d["p"]["l"]
+    return None
+
+
+def _value_root(ctx, b, op, depth=0):
+    """where an integer value comes from, through copies and casts: ('local', l) for a named / multiply-assigned local,
+    ('cursor', guard) for a read of the locked cursor, ('other', ..) else"""
+    pl = op_place(op)
+    if pl is None or depth > 30:
+        return ("other", None)
+    if pl.get("p"):
+        if pl["p"] == ["*"]:
+            g = _guard_of(ctx, b, pl["l"])
+            if g is not None:
+                return ("cursor", g)
+        return ("other", None)
+    d = single_def(b, pl["l"])
+    if d is None or d[1] == "term":
+        return ("local", pl["l"])
+    r = d[2]["r"]
+    if r["k"] in ("use", "cast") and not d[2]["p"].get("p"):
+        q = op_place(r["o"])
+        if q is not None and (not q.get("p") or q["p"] == ["*"]):
+            v = _value_root(ctx, b, r["o"], depth + 1)
+            if v[0] != "other":
+                return v
+    return ("local", pl["l"])
+
+
+def r4(ctx):
+    R = "C10-R4"
+    ctx.rule(R, "the file position after a cursor read / write is the offset the transfer was made at plus the bytes transferred: in every "
+                "function of the std shim that performs a positioned transfer (read_at_internal / write_at_internal) and then stores the "
+                "File's cursor, the stored value is `base + n` where `base` is the very value passed as the transfer's offset (in append mode "
+                "that is the end of file, not the old cursor) and `n` the transfer's result; Fs::write_file logs no record for an empty write "
+                "(an empty record at an offset past the end would extend the file: file_len is the maximum end of the pending writes)")
+    n = 0
+    for b in sorted(ctx.w.bodies.values(), key=lambda b: b.id):
+        if b.crate != "turmoil_fs" or "turmoil_fs::shim::std::fs::" not in b.id:
+            continue
+        xfers = [(bb, t) for bb, t in b.calls(POSITIONED)]
+        if not xfers:
+            continue
+        stores = []
+        for bb, i, s2 in b.all_stmts():
+            if i == "term" or s2["p"].get("p") != ["*"]:
+                continue
+            g = _guard_of(ctx, b, s2["p"]["l"])
+            if g is None:
+                continue
+            ga = Slicer(ctx.w).atoms(b, {"c": {"l": g}})
+            if "field:" + CURSOR in ga:
+                stores.append((bb, i, s2))
+        for bb, i, s2 in stores:
+            n += 1
+            bb0, t = next(((xb, xt) for xb, xt in xfers if bb in b.reachable(xb)), xfers[0])
+            off = _value_root(ctx, b, t["args"][2]) if len(t["args"]) > 2 else ("other", None)
+            # the stored value: base + n
+            o = s2["r"].get("o")
+            bases = []
+            dd = None
+            pl = op_place(o) if o else None
+            if pl is not None:
+                q = {"c": {"l": pl["l"]}}
+                oo = origin(b, q)
+                if oo["k"] == "bin" and oo["op"].startswith("Add"):
+                    bases = [_value_root(ctx, b, oo["a"]), _value_root(ctx, b, oo["b"])]
+                elif oo["k"] == "call" and re.search(r"::(checked_add|saturating_add|wrapping_add)$", oo["t"]["f"]):
+                    bases = [_value_root(ctx, b, a) for a in oo["t"]["args"][:2]]
+            res_ok = any("call:" + t["f"] in Slicer(ctx.w).atoms(b, a) or any(x.startswith("call:") and "at_internal" in x for x in Slicer(ctx.w).atoms(b, a))
+                         for a in ([oo["a"], oo["b"]] if bases and oo["k"] == "bin" else oo["t"]["args"][:2] if bases else []))
+            ok = bool(bases) and off[0] != "other" and off in bases and res_ok
+            ctx.inst(R, f"cursor-advance:{b.id}#{nth({}, b.id)}", ok, s2["s"], "cursor := transfer offset + bytes transferred" if ok else
+                     f"`{b.id}` stores a cursor that is not `offset passed to {t['f'].rsplit('::', 1)[1]} + bytes transferred` "
+                     f"(offset comes from {off}, stored sum is over {bases}): after an append-mode write the position is not the end of the data just written, "
+                     "so the next read / write / seek(Current) differs from a POSIX file")
+    ctx.inst(R, "cursor-advance:found", n >= 2, "", f"{n} cursor stores after a positioned transfer analysed" if n >= 2 else "fewer than 2 cursor stores found (File::read / File::write): re-derive")
+    # no record for an empty write
+    OP = "turmoil_fs::PendingOp"
+    k = 0
+    for b in sorted(ctx.w.bodies.values(), key=lambda b: b.id):
+        if b.crate != "turmoil_fs":
+            continue
+        for bb, i, s2 in b.all_stmts():
+            r = s2["r"]
+            if i == "term" or r["k"] != "agg" or r.get("adt") != OP or r.get("variant") != "Write" or b.id.endswith("Clone>::clone"):
+                continue
+            k += 1
+            data = r["ops"][2] if len(r["ops"]) > 2 else None
+            da = Slicer(ctx.w).atoms(b, data) if data else set()
+            dargs = {a for a in da if a.startswith("arg:")}
+
+            def guarded(fb, blk, argset):
+                for sbb, te, fe, o in guards_on(fb, lambda o: o["k"] in ("call", "bin", "not")):
+                    at = Slicer(ctx.w).atoms(fb, fb.term(sbb)["d"])
+                    oo = o["a"] if o["k"] == "not" else o
+                    # an emptiness test: `is_empty()`, or `len()` compared with the constant 0
+                    isz = oo["k"] == "call" and re.search(r"::is_empty$", oo["t"]["f"])
+                    if oo["k"] == "bin" and oo["op"] in ("Eq", "Ne", "Gt", "Lt", "Ge", "Le"):
+                        cs = [op_const(oo["a"]), op_const(oo["b"])]
+                        zero = any(c is not None and c.get("v") in (0, 1) for c in cs)
+                        lens = any(origin(fb, x)["k"] == "call" and origin(fb, x)["t"]["f"].endswith("::len") or
+                                   (origin(fb, x)["k"] == "other" and origin(fb, x)["r"].get("k") in ("len", "ptrmeta")) for x in (oo["a"], oo["b"]))
+                        isz = zero and lens
+                    if isz and (at & argset) and fb.dominated_by_any(blk, edges=te + fe):
+                        return True
+                return False
+            ok = guarded(b, bb, dargs)
+            if not ok:
+                callers = [(cb, cbb, t) for cb in ctx.w.bodies.values() for cbb, t in cb.calls(re.compile("^" + re.escape(b.id) + "$"))]
+                ok = bool(callers) and all(guarded(cb, cbb, Slicer(ctx.w).atoms(cb, t["args"][3]) if len(t["args"]) > 3 else set()) for cb, cbb, t in callers)
+            ctx.inst(R, f"write-record:non-empty:{b.id}", ok, s2["s"], "a Write record is logged only for a non-empty buffer" if ok else
+                     f"`{b.id}` logs a PendingOp::Write without testing that the data is non-empty: a zero-length write at an offset past the end "
+                     "extends the file (file_len / the flushed image take offset + len of every record), which a POSIX write of 0 bytes never does")
+    ctx.inst(R, "write-record:found", k >= 1, "", f"{k} Write record constructions analysed" if k >= 1 else "no PendingOp::Write construction found: re-derive")
+    ctx.floor(R, 5)  # 2 cursor stores, 1 record construction, 2 counts
+
+
 def run(ctx):
     if ctx.config not in ("all", "fs", "fs_iou"):
         ctx.info("C10-R1", "feature-off", "", "unstable-fs not enabled in this configuration: nothing to analyse")
@@ -119,6 +250,7 @@ def run(ctx):
     r1(ctx)
     r2(ctx)
     r3(ctx)
+    r4(ctx)
     C07.r3(ctx)   # R3: syncs move records, never drop or duplicate them
     C07.r1(ctx)   # R3: only sync / crash touch the persisted image
     C04.r6(ctx)   # R4: per-host isolation
